@@ -4,6 +4,9 @@
   about the environment, see that file). Safety half: `Props/C08.lean`.
 -/
 import MicroHttp.Kernel
+import MicroHttp.Proofs.KernelBasic
+import MicroHttp.Proofs.KernelPoll
+import MicroHttp.Proofs.KernelMeasure
 namespace MicroHttp.C08
 open MicroHttp
 
@@ -12,7 +15,7 @@ open MicroHttp
 theorem no_spin (w : World) (hw : w.WellBehaved) (hb : w.backlog = [])
     (hq : ∀ c ∈ w.srv.conns, (w.sock c.fd).unread = [] ∧ c.interest = .inn) :
     w.ready = false := by
-  sorry
+  exact no_spin' w hw hb hq
 
 /-- No lost wake-up: under the server invariant, whenever there is something the server can do —
     a pending connect, unread input on a connection that waits for input, unsent output on a
@@ -23,7 +26,7 @@ theorem no_lost_wakeup (w : World) (h : SrvInv w.srv)
         ((w.sock c.fd).unread ≠ [] ∧ c.interest = .inn) ∨
         (pendingWrite c.conn = true ∧ 0 < (w.sock c.fd).space)) :
     w.ready = true := by
-  sorry
+  exact no_lost_wakeup' w h hwork
 
 /-- No stall: if the epoll descriptor is silent (and every socket has room), then nothing the
     server could do is outstanding: no pending connect, no unread input, no unsent output — only the
@@ -31,16 +34,16 @@ theorem no_lost_wakeup (w : World) (h : SrvInv w.srv)
 theorem silent_means_idle (w : World) (h : SrvInv w.srv) (hs : w.ready = false)
     (hroom : ∀ c ∈ w.srv.conns, 0 < (w.sock c.fd).space) :
     w.backlog = [] ∧ ∀ c ∈ w.srv.conns, (w.sock c.fd).unread = [] ∧ pendingWrite c.conn = false ∧ c.interest = .inn := by
-  sorry
+  exact silent_means_idle' w h hs hroom
 
 /-- The batch the kernel returns is admissible (E1/E6 hold for it) in a well-behaved world. -/
 theorem batch_admissible (w : World) (h : SrvInv w.srv) (hw : w.WellBehaved) : EvsOK w.srv w.batch := by
-  sorry
+  exact batch_admissible' w h hw
 
 /-- Polling a well-behaved world never fails, and keeps the invariant and well-behavedness. -/
 theorem poll_ok (w : World) (h : SrvInv w.srv) (hw : w.WellBehaved) :
     (∃ reqs, w.poll.2 = .ok reqs) ∧ SrvInv w.poll.1.srv ∧ w.poll.1.WellBehaved := by
-  sorry
+  exact poll_ok' w h hw
 
 /-- Progress: every poll made when the epoll descriptor signals strictly decreases the work
     measure (pending connects + unread bytes, then unsent bytes, then stale registrations) in the
@@ -48,10 +51,10 @@ theorem poll_ok (w : World) (h : SrvInv w.srv) (hw : w.WellBehaved) :
     polls can happen, after which the descriptor is silent (`silent_means_idle`). -/
 theorem poll_progress (w : World) (h : SrvInv w.srv) (hw : w.WellBehaved) (hr : w.ready = true) :
     lexLt w.poll.1.measure w.measure := by
-  sorry
+  exact poll_progress' w h hw hr
 
 /-- the lexicographic order used above is well-founded -/
 theorem lexLt_wf : WellFounded lexLt := by
-  sorry
+  exact lexLt_wf'
 
 end MicroHttp.C08
